@@ -155,7 +155,151 @@ func peek(b *qnet.Buffer, k int) Sx {
 	panic("bad kind")
 }
 
+// ---- deep buffers --------------------------------------------------------------------------
+// The property speaks of ALL sequences, also those that make the buffer large.  deep(seed,
+// total) regenerates a sequence of typed writes from the seed until at least `total` bytes are
+// buffered, checks Len() after every single write against the running sum of widths, then reads
+// everything back (regenerating the same sequence) comparing bit for bit, and checks that the
+// buffer is empty.  Returns 0 ok | 1 a write did not append its width | 3 read-back differs /
+// buffer not empty | 5 panic, and the index of the first offending value.
+
+func rawValue(r *Rng, k int) uint64 {
+	u := r.Next()
+	if r.Intn(8) == 0 {
+		u = r.PickU64(0, 1, ^uint64(0), 1<<63, 1<<63-1, 0x7ff8000000000001, 0x7fc00001, 0xffffffff, 0x80000000, 0xff, 0x80)
+	}
+	switch widthOf(k) {
+	case 1:
+		u &= 0xff
+		if k == kBool {
+			u &= 1
+		}
+	case 2:
+		u &= 0xffff
+	case 4:
+		u &= 0xffffffff
+	}
+	return u
+}
+
+// write / read the value whose width-truncated two's complement is u
+func writeRaw(b *qnet.Buffer, k int, u uint64) {
+	switch k {
+	case kBool:
+		b.WriteBool(u != 0)
+	case kU8:
+		b.WriteUInt8(uint8(u))
+	case kI8:
+		b.WriteInt8(int8(u))
+	case kU16:
+		b.WriteUint16(uint16(u))
+	case kI16:
+		b.WriteInt16(int16(u))
+	case kU32:
+		b.WriteUint32(uint32(u))
+	case kI32:
+		b.WriteInt32(int32(u))
+	case kU64:
+		b.WriteUint64(u)
+	case kI64:
+		b.WriteInt64(int64(u))
+	case kUint:
+		b.WriteUint(uint(u))
+	case kInt:
+		b.WriteInt(int(u))
+	case kF32:
+		b.WriteFloat32(math.Float32frombits(uint32(u)))
+	case kF64:
+		b.WriteFloat64(math.Float64frombits(u))
+	}
+}
+
+func readRaw(b *qnet.Buffer, k int) uint64 {
+	switch k {
+	case kBool:
+		return uint64(b2i(b.ReadBool()))
+	case kU8:
+		return uint64(b.ReadUint8())
+	case kI8:
+		return uint64(uint8(b.ReadInt8()))
+	case kU16:
+		return uint64(b.ReadUint16())
+	case kI16:
+		return uint64(uint16(b.ReadInt16()))
+	case kU32:
+		return uint64(b.ReadUint32())
+	case kI32:
+		return uint64(uint32(b.ReadInt32()))
+	case kU64:
+		return b.ReadUint64()
+	case kI64:
+		return uint64(b.ReadInt64())
+	case kUint:
+		return uint64(b.ReadUint())
+	case kInt:
+		if ws == 4 {
+			return uint64(uint32(b.ReadInt()))
+		}
+		return uint64(b.ReadInt())
+	case kF32:
+		return uint64(math.Float32bits(b.ReadFloat32()))
+	case kF64:
+		return math.Float64bits(b.ReadFloat64())
+	}
+	panic("bad kind")
+}
+
+func truncWord(k int, u uint64) uint64 {
+	if (k == kUint || k == kInt) && ws == 4 {
+		return u & 0xffffffff
+	}
+	return u
+}
+
+func deep(seed uint64, total int64) (code int, index int64, checked int64) {
+	var b qnet.Buffer
+	pn, _ := Catch(func() {
+		r := NewRng(seed)
+		var expect, n int64
+		for expect < total {
+			k := r.Intn(nKinds)
+			u := truncWord(k, rawValue(r, k))
+			writeRaw(&b, k, u)
+			expect += int64(widthOf(k))
+			checked++
+			if int64(b.Len()) != expect {
+				code, index = 1, n
+				return
+			}
+			n++
+		}
+		r = NewRng(seed)
+		for i := int64(0); i < n; i++ {
+			k := r.Intn(nKinds)
+			u := truncWord(k, rawValue(r, k))
+			got := readRaw(&b, k)
+			expect -= int64(widthOf(k))
+			checked++
+			if got != u || int64(b.Len()) != expect {
+				code, index = 3, i
+				return
+			}
+		}
+		if b.Len() != 0 {
+			code, index = 3, n
+		}
+	})
+	if pn {
+		code = 5
+	}
+	return
+}
+
 func run(in Sx) Sx {
+	if in.Len() == 1 && in.At(0).At(0).AsInt() == 9 {
+		code, index, _ := deep(in.At(0).At(1).Uint64(), in.At(0).At(2).Int64())
+		return List(Int(ws), List(List(Int(9), Int(int64(code)), Int(index))))
+	}
 	var b qnet.Buffer
 	outs := make([]Sx, 0, in.Len())
 	for i := 0; i < in.Len(); i++ {
@@ -404,7 +548,29 @@ func gen(a Args, out *Out) {
 			emit("misuse", ops)
 		}
 	}
-	// volume: the property itself in Go
+	// deep buffers: one buffer grown through every power of two up to 32 MiB (thorough 128 MiB)
+	deepTotal := int64(1)<<25 + 4096
+	if a.Thorough() {
+		deepTotal = int64(1)<<27 + 4096
+	}
+	for _, d := range []struct {
+		seed  uint64
+		total int64
+	}{{rng.Next(), 1<<10 + 64}, {rng.Next(), 1<<16 + 64}, {rng.Next(), 1<<20 + 64}, {rng.Next(), 1<<23 + 4096}, {rng.Next(), deepTotal}} {
+		code, index, checked := deep(d.seed, d.total)
+		out.GoChecked += checked
+		out.Count("deep-buffer runs")
+		in := List(List(Int(9), Uint(d.seed), Int(d.total)))
+		if code != 0 {
+			what := map[int]string{1: "width", 3: "readback", 5: "panic"}[code]
+			out.Violation("C19/deep-buffer/"+what, "deep buffer ("+strconv.FormatInt(d.total, 10)+" bytes): "+what+" fails at value #"+strconv.FormatInt(index, 10),
+				List(in, List()))
+		}
+		if d.total <= 1<<16+64 {
+			out.Case("deep", true, in, run(in))
+		}
+	}
+	out.Note("deep-buffer sweep up to %d bytes in one buffer", deepTotal)
 	nvol := 20000
 	if a.Thorough() {
 		nvol = 400000
